@@ -23,6 +23,8 @@ fn hexp(p: &Path) -> String {
 
 pub enum Layer {
     Not(Vec<String>),
+    /// the same negation given as compiled values (`Glob`, or `Any` of `Glob`s)
+    NotCompiled(Vec<String>),
     Filter(Vec<(String, bool)>),
 }
 
@@ -98,6 +100,26 @@ macro_rules! runner {
                     }
                     else {
                         match wax::any(exprs.iter().map(|x| x.as_str())) {
+                            Ok(any) => it.not(any),
+                            Err(_) => return Err("noterr".into()),
+                        }
+                    };
+                    match not {
+                        Ok(w) => $next(w, rest, logs, out),
+                        Err(_) => Err("noterr".into()),
+                    }
+                },
+                Some((Layer::NotCompiled(exprs), rest)) => {
+                    let globs: Result<Vec<Glob<'_>>, _> = exprs.iter().map(|x| Glob::new(x.as_str())).collect();
+                    let globs = match globs {
+                        Ok(globs) => globs,
+                        Err(_) => return Err("noterr".into()),
+                    };
+                    let not = if globs.len() == 1 {
+                        it.not(globs.into_iter().next().unwrap())
+                    }
+                    else {
+                        match wax::any(globs) {
                             Ok(any) => it.not(any),
                             Err(_) => return Err("noterr".into()),
                         }
@@ -234,6 +256,9 @@ pub fn parse_stack(s: &str) -> Vec<Layer> {
             let (k, rest) = l.split_once(':').unwrap();
             if k == "n" {
                 Layer::Not(rest.split('+').map(unhex).collect())
+            }
+            else if k == "nc" {
+                Layer::NotCompiled(rest.split('+').map(unhex).collect())
             }
             else {
                 Layer::Filter(
